@@ -39,7 +39,7 @@ TRACK_B = ("HardDrums", ["5 = N 1 0", "100 = N 2 0", "100 = N 3 0", "200 = S 2 1
 TRACK_C = ("EasyKeyboard", ["7 = E ev", "9 = N 2 1", "193 = N 2 1", "385 = N 0 0"])
 TRACK_D = ("MediumGHLCoop", ["1 = S 2 3", "2 = N 4 0", "383 = N 3 2", "385 = E x"])
 
-UNKNOWN_NAMES = ("Foo", "ExpertSingle ", "expertsingle", "Song2")
+UNKNOWN_NAMES = ("Foo", "ExpertSingle ", "expertsingle", "Song2", "Song]", "Events][old", "ExpertSingle][backup", "MediumKeyboard] x", "[SyncTrack", "XSong")
 # (body lines, indentation)
 UNKNOWN_BODIES = (
     (["Resolution = 1", "0 = B 1", "0 = N 0 0", '0 = E "section q"'], "  "),
@@ -144,6 +144,11 @@ def run_shard(shard, ctx):
                 if not secs:
                     continue
                 got = check(ctx, render(secs), "file", "required sections present: %r" % [s[0] for s in secs if s in req], sample=dict(sections=[s[0] for s in secs]))
+        # a look-alike unknown section never stands in for a missing required one
+        for m in range(7):
+            for fake in ("Song]", "SyncTrack]]", "Events][old", "Song2", " Events"):
+                secs = [s_ for i, s_ in enumerate(req) if m >> i & 1] + [(fake, dict(S=SONG, Y=SYNC, E=EVENTS)[fake.strip()[0] if fake.strip()[0] in "SE" and not fake.startswith("Sync") else "Y"][1])] + [TRACK_A]
+                check(ctx, render(secs), "file", "required sections present: %r plus look-alike [%s]" % ([s_[0] for s_ in secs if s_ in req], fake), sample=dict(sections=[s_[0] for s_ in secs]))
         # adding one more well-formed track section adds no warning record (differential)
         base = [SONG, SYNC, EVENTS, TRACK_A]
         w0 = warn_count(render(base))
@@ -167,7 +172,7 @@ def run_shard(shard, ctx):
                 ctx.node()
                 s1 = base[:p1] + [(name1, body1, ind1)] + base[p1:]
                 _unknown_case(ctx, s1, base_text, w0, 1)
-                for name2 in UNKNOWN_NAMES:
+                for name2 in UNKNOWN_NAMES[(n1 + 1) % len(UNKNOWN_NAMES) :][:3]:
                     if name2 == name1:
                         continue
                     body2, ind2 = UNKNOWN_BODIES[(b1 + 1) % len(UNKNOWN_BODIES)]
